@@ -51,6 +51,9 @@ func main() {
 		fmt.Fprintln(os.Stderr, "bad tier", *tier)
 		os.Exit(2)
 	}
+	if *prop == "all" {
+		os.Exit(runAllProps(*repo, *tier, *verifDir))
+	}
 	rules, ok := propRules[*prop]
 	if !ok {
 		fmt.Fprintln(os.Stderr, "unknown or unclaimed property", *prop)
@@ -316,4 +319,74 @@ func nBad(l []Obligation) int {
 		}
 	}
 	return n
+}
+
+// runAllProps is an authoring aid (tools/refcheck.sh, tools/seedall.sh): one load, then every property's rules in turn;
+// it prints the violated / undischarged obligations per property and nothing else, and writes no evidence.
+func runAllProps(repo, tier, verifDir string) int {
+	c, err := load(repo, tier, "")
+	if err != nil {
+		fmt.Println("UNDECIDED load failed:", err)
+		return 2
+	}
+	findings, _ := loadFindings(filepath.Join(verifDir, "known_findings.json"))
+	props := []string{}
+	for p := range propRules {
+		props = append(props, p)
+	}
+	sort.Strings(props)
+	code := 0
+	for _, prop := range props {
+		c.obls, c.counts, c.tableCovered, c.termMemo = nil, map[string]int{}, map[string]string{}, nil
+		func() {
+			defer func() {
+				if r := recover(); r != nil {
+					fmt.Printf("%s UNDECIDED checker panic: %v\n", prop, r)
+					code = 2
+				}
+			}()
+			for _, r := range propRules[prop] {
+				n0 := len(c.obls)
+				r.run(c, prop)
+				c.applyTableOverrides(n0)
+				if nBad(c.obls[n0:]) > 0 && !c.termInline {
+					saved := append([]Obligation{}, c.obls[n0:]...)
+					c.obls = c.obls[:n0]
+					c.termInline, c.termMemo = true, nil
+					r.run(c, prop)
+					c.applyTableOverrides(n0)
+					c.termInline, c.termMemo = false, nil
+					if nBad(c.obls[n0:]) >= nBad(saved) {
+						c.obls = append(c.obls[:n0], saved...)
+					}
+				}
+			}
+		}()
+		seen := map[string]bool{}
+		for _, o := range c.obls {
+			if o.Control {
+				wantBad, wantGood := strings.Contains(o.Key, "bad"), strings.Contains(o.Key, "good")
+				if (wantBad && o.Status != StViolated) || (wantGood && o.Status != StDischarged) {
+					fmt.Printf("%s UNDECIDED control %s has status %s\n", prop, o.Key, o.Status)
+				}
+				continue
+			}
+			if (o.Status != StViolated && o.Status != StUndecided) || seen[o.Key] {
+				continue
+			}
+			seen[o.Key] = true
+			if o.Status == StViolated && knownFor(findings, prop, o.Key) != nil {
+				continue
+			}
+			word := "violated"
+			if o.Status == StUndecided {
+				word = "undischarged"
+			}
+			fmt.Printf("%s %s: rule=%s key=%s site=%s why=%s\n", prop, word, o.Rule, o.Key, o.Site, o.Why)
+			if code == 0 {
+				code = 1
+			}
+		}
+	}
+	return code
 }
